@@ -198,6 +198,14 @@ func runC11(c *Check) {
 	c.ruleWriteOnlyWhatSerialized("R8")
 	c.ruleNoWholeRecordOverwrite("R9")
 	c.ruleStoredFlagsOnlyRise("R10")
+	c.ruleFlagRaisedBehindItsArgument("R11")
+	// the list helpers ProcessBlock uses to take a confirmed tx out of the unconfirmed list are part of the
+	// mechanism (the shared discipline rules run over them)
+	for _, k := range []string{"spynode.removeHash", "spynode.containsHash"} {
+		if fn := c.P.Fn(k); fn != nil {
+			c.Touch(fn)
+		}
+	}
 }
 
 // relax marks reader loops that run until the input is exhausted as matching an uncounted writer
